@@ -111,7 +111,7 @@ func logsOut(l map[int][]string) map[string][]string {
 	return out
 }
 
-func (w *Worker) runEntry(pkg *ssa.Package, fn *ssa.Function, world, log int) {
+func (w *Worker) runEntry(pkg *ssa.Package, fn *ssa.Function, world, log int, singleWorld bool) {
 	m := w.m
 	m.world = world
 	m.curLog = log
@@ -132,6 +132,19 @@ func (w *Worker) runEntry(pkg *ssa.Package, fn *ssa.Function, world, log int) {
 	if m.uncaught == nil {
 		m.pushFrame(fn, nil, nil, nil)
 		m.run()
+	}
+	if p := m.uncaught; p != nil && singleWorld {
+		// a harness that panics has not established its assertion: that is a failure of its own
+		r, model := m.model(m.pathVars)
+		desc := "explicit panic"
+		if p.class != "" {
+			desc = "run-time panic: " + p.class
+		}
+		if r == Sat {
+			m.recordFailure(-2, "uncaught-panic", desc, model)
+		} else {
+			m.inconclusive = append(m.inconclusive, "uncaught panic but no model")
+		}
 	}
 	if p := m.uncaught; p != nil {
 		var n *EvNode
@@ -159,14 +172,14 @@ func (w *Worker) runPath(spec *DriverSpec, prefix []int) (abort *pathAbort) {
 		}
 	}()
 	if spec.Ref != nil {
-		w.runEntry(spec.RefPkg, spec.Ref, 0, 0)
+		w.runEntry(spec.RefPkg, spec.Ref, 0, 0, spec.Impl == nil)
 	}
 	if spec.Impl != nil {
 		log := 1
 		if spec.Ref == nil {
 			log = 0 // single-world harness: the default log is 0
 		}
-		w.runEntry(spec.ImplPkg, spec.Impl, 1, log)
+		w.runEntry(spec.ImplPkg, spec.Impl, 1, log, spec.Ref == nil)
 	}
 	if spec.Ref != nil && spec.Impl != nil {
 		m.assertSameLogs(0, 1, -1)
